@@ -979,7 +979,8 @@ def ctx_check(prop: str, tier: str, seed: int) -> core.Report:
     else:
         mcb = [(2, 3, ["default"], False)] if tier == "quick" else [(3, 2, ["default"], False), (2, 3, ["default", "alt"], False)]
         graphs = [(2, 2, ["default"], False), (3, 1, ["default"], False), (1, 2, ["default"], True)] if tier == "quick" else \
-                 [(2, 3, ["default"], False), (3, 2, ["default"], False), (2, 2, ["default", "alt"], False), (2, 1, ["default"], True)]
+                 [(2, 3, ["default"], False), (3, 1, ["default"], False), (2, 2, ["default", "alt"], False), (1, 2, ["default"], True), (2, 1, ["default"], True)]
+        # (the graph with 3 contexts and 2 registrations does not fit: ~13 GB as Python objects, times 16 worker processes)
         if prop == "C02":
             # creation and entry of a child as separate steps (the snapshot is taken at creation)
             graphs.append((2, 1, ["default"], True))
@@ -991,7 +992,11 @@ def ctx_check(prop: str, tier: str, seed: int) -> core.Report:
             raise core.MachineryError(f"Ctx.tla violates its own properties ({mc_},{mr}): {res.invariant_violated or res.error or 'action property'}\n{res.out[-1500:]}")
         rep.add_tlc(res, f"MC_Ctx MaxCtx={mc_} MaxRegs={mr} Names={nm} Life={lf}: ScopedDown, GenNotShared, GenIsOwn, Stable, OnlyActedOn, FailedChangesNothing, Forward, EventsRight")
     # 2. spec -> code: every state and transition of the bounded graphs replayed against real contexts
-    dumps = core.pmap(_dump_job, [(_cfg_text(a, b, nm, life=(lf is True), inj=(lf == "inj")),) for a, b, nm, lf in graphs], chunks=1, jobs=len(graphs))
+    if tier == "quick":
+        dumps = core.pmap(_dump_job, [(_cfg_text(a, b, nm, life=(lf is True), inj=(lf == "inj")),) for a, b, nm, lf in graphs], chunks=1, jobs=len(graphs))
+    else:
+        # the bigger graphs one at a time: only one of them is held in memory (and shared with the forked walkers)
+        dumps = (_dump_job((_cfg_text(a, b, nm, life=(lf is True), inj=(lf == "inj")),)) for a, b, nm, lf in graphs)
     total = collections.Counter()
     all_m = []
     for (a, b, nm, lf), (g, res) in zip(graphs, dumps):
